@@ -98,7 +98,10 @@ def run(tier: str) -> int:
             return rep.finish()
         cases = json.loads(out.read_text())
         # the name "o" is a sibling of the hashed directory whose name starts with the directory's name
-        names = {"x": "data", "y": "data2.bin", "o": "root_backup"}
+        NAME_MAPS = [{"x": "data", "y": "data2.bin", "o": "root_backup"},
+                     {"x": "a", "y": "a.b", "o": "root.bak"}, {"x": "a b", "y": "a", "o": "root copy"},
+                     {"x": ".hidden", "y": "ä ✓", "o": "root_"}, {"x": "A", "y": "a", "o": "rootX"},
+                     {"x": "10", "y": "9", "o": "root2"}]
         variants = [0, 3] if quick else list(range(len(SIZES)))
         results = []
         nrej = nacc = nskip = 0
@@ -125,6 +128,7 @@ def run(tier: str) -> int:
                 nskip += 1
                 continue
             for variant in variants:
+                names = NAME_MAPS[(ci + variant) % len(NAME_MAPS)]
                 base = scratch / f"t{ci}_{variant}" / "root"
                 materialise(base, tree, names, variant, rng)
                 # what an escaping link would reach: a sibling directory sharing the name prefix
@@ -148,7 +152,8 @@ def run(tier: str) -> int:
                 else:
                     nacc += 1
                     if variant == variants[0]:
-                        results.append((ci, json.dumps(sorted((list(k), v) for k, v in got.items()))))
+                        # (compared only among directories materialised with the same concrete names)
+                        results.append((ci, json.dumps([(ci + variant) % len(NAME_MAPS), sorted((list(k), v) for k, v in got.items())])))
                 # single edit: one content byte of one file changes, size and timestamps stay the same
                 files = [e for e in tree if e["k"] == "f"]
                 if got == exp and exp != "REJECTED" and files and (ci + variant) % 2 == 0:
